@@ -240,6 +240,36 @@ class Skeleton:
                 return (v['d'], c['op'] == '==')
         return None
 
+    def ends_with_jump(self, n):
+        if n[0] in ('return', 'break', 'continue'):
+            return True
+        if n[0] == 'seq':
+            return bool(n[1]) and self.ends_with_jump(n[1][-1])
+        if n[0] == 'if':
+            return self.ends_with_jump(n[3]) and self.ends_with_jump(n[4])
+        if n[0] == 'ifnull':
+            return self.ends_with_jump(n[2]) and self.ends_with_jump(n[3])
+        return False
+
+    def consumes_on_fallthrough(self, n):
+        """can control fall out of n (to the next statement) after a grammar action was performed inside n?"""
+        k = n[0]
+        if k in ('match', 'call', 'advance'):
+            return True
+        if k == 'seq':
+            if self.ends_with_jump(n):
+                return False
+            return any(self.consumes_on_fallthrough(x) for x in n[1])
+        if k == 'if':
+            return self.consumes_on_fallthrough(n[3]) or self.consumes_on_fallthrough(n[4])
+        if k == 'ifnull':
+            return self.consumes_on_fallthrough(n[2]) or self.consumes_on_fallthrough(n[3])
+        if k == 'switch':
+            return any(self.has_grammar_action(b) for _, b in n[1])
+        if k == 'loop':
+            return self.has_grammar_action(n[2])
+        return False
+
     def has_flow(self, n):
         if n[0] in ('return', 'break', 'continue', 'bind'):
             return True
@@ -285,7 +315,7 @@ class Skeleton:
             for c in s['s']:
                 node = self.stmt(c, f)
                 out.append(node)
-                if self.has_grammar_action(node):
+                if self.consumes_on_fallthrough(node):
                     self._alias = {}          # a token may have been consumed: remembered look-aheads are stale
                 if c['k'] == 'decl':
                     for v in c['vars']:
@@ -298,7 +328,7 @@ class Skeleton:
                         elif (v.get('cty') or '').replace('const ', '') == 'bool' and self.lacond(init) is not None:
                             self._alias = dict(getattr(self, '_alias', {}))
                             self._alias[v['d']] = init
-            self._alias = saved if not any(self.has_grammar_action(n) for n in out) else {}
+            self._alias = saved if not any(self.consumes_on_fallthrough(n) for n in out) else {}
             return ('seq', out)
         if k in ('empty',):
             return ('seq', [])
@@ -343,7 +373,7 @@ class Skeleton:
                 a_ = self.stmt(s['t'], f)
                 self._alias = dict(saved_alias)
                 b_ = self.stmt(s.get('e'), f)
-                self._alias = dict(saved_alias) if not (self.has_grammar_action(a_) or self.has_grammar_action(b_)) else {}
+                self._alias = dict(saved_alias) if not (self.consumes_on_fallthrough(a_) or self.consumes_on_fallthrough(b_)) else {}
                 return a_, b_
             if nt is not None:
                 a, b = arms()
